@@ -42,9 +42,15 @@ import (
 //     tlsM   tls with missing certificate files    imp   import of a missing file
 //     logE   H1 + `log` into a directory that does not exist (the OnStartup callback fails)
 //     busy3  one site on p3 (port in use)          leak13  sites on p1 and p3     leak123  sites on p1, p2, p3
+//     ty-<w> A1 + a mistyped directive <w> (proxi basicaut rewrit gzi loggg tlss redri zzz): rejected by the parser
+//     O1     ORDER-SENSITIVE site on p1: rewrite, gzip{ext}, basicauth, redir, status, proxy whose observable behaviour depends
+//            on the documented execution order of the directives        OB12   O on p1 and a plain site on p2
 //
-//   out = step|step|…     step = <res>;ls=<fds of listening sockets on p1>.<on p2>;hk=<event hooks>;s1=<probe p1>;s2=<probe p2>
-//     res    ok | err | timeout                probe  <site marker> | - (refused) | hang | e:<class>
+//   out = step|step|…     step = <res>;ls=<fds of listening sockets on p1>.<on p2>;hk=<event hooks>;dv=<0|1>;s1=<probe p1>;s2=<probe p2>
+//     res    ok | err | timeout        dv  0 iff casket.ValidDirectives("http") is what it was when the process started
+//     probe  - (refused) | hang | e:<class> | <marker>/<battery>   marker = body of GET /, battery = status of unauthenticated
+//            GETs of /secret/file.txt /pub /api/x /secret/moved /teapot, then gz|id = is /pubz (Accept-Encoding: gzip) compressed;
+//            a plain site answers 404.404.404.404.404.id, the order-sensitive one 401.401.401.401.418.gz in a fresh process
 
 var c08 struct {
 	mu        sync.Mutex
@@ -55,6 +61,9 @@ var c08 struct {
 	dir       string
 	portCur   int
 	anomalies int
+	backend   *http.Server
+	backendLn net.Listener
+	dirs0     []string
 	timeouts  int
 }
 
@@ -121,15 +130,30 @@ func c08Setup() error {
 		}
 	}
 	log.SetOutput(c08.logbuf)
+	if c08.dirs0 == nil {
+		c08.dirs0 = append([]string(nil), casket.ValidDirectives("http")...)
+	}
+	if c08.backendLn == nil {
+		ln, err := net.Listen("tcp", "127.0.0.1:0")
+		if err != nil {
+			return err
+		}
+		c08.backendLn = ln
+		c08.backend = &http.Server{Handler: http.HandlerFunc(func(w http.ResponseWriter, r *http.Request) { io.WriteString(w, "BACK") })}
+		go c08.backend.Serve(ln)
+	}
 	dir, err := os.MkdirTemp("", "verif-c08-")
 	if err != nil {
 		return err
 	}
 	c08.dir = dir
-	for _, m := range []string{"A", "B", "C", "H"} {
+	for _, m := range []string{"A", "B", "C", "H", "O"} {
 		os.MkdirAll(filepath.Join(dir, m), 0o755)
 		os.WriteFile(filepath.Join(dir, m, "index.html"), []byte(m), 0o644)
 	}
+	os.MkdirAll(filepath.Join(dir, "O", "secret"), 0o755)
+	os.WriteFile(filepath.Join(dir, "O", "secret", "file.txt"), []byte("classified"), 0o644)
+	os.WriteFile(filepath.Join(dir, "O", "plain.txt"), []byte(strings.Repeat("plain text that compresses well. ", 100)), 0o644)
 	c08.p3 = c08FreePort()
 	ln, err := net.Listen("tcp", fmt.Sprintf("127.0.0.1:%d", c08.p3))
 	if err != nil {
@@ -176,7 +200,29 @@ func c08Config(kind string, p [4]int) (string, bool) {
 		return b.String()
 	}
 	hook := "on shutdown true"
+	if strings.HasPrefix(kind, "ty-") {
+		for _, w := range c08Typos {
+			if kind == "ty-"+w {
+				return site(1, "A", w+" x"), true
+			}
+		}
+		return "", false
+	}
+	ordered := []string{
+		"proxy /api http://" + c08.backendLn.Addr().String(), // written in an order unlike the documented one on purpose
+		"status 418 /teapot",
+		"redir /secret/moved /elsewhere 301",
+		"basicauth /api alice hunter2",
+		"basicauth /secret alice hunter2",
+		"gzip {\n  ext .txt\n }",
+		"rewrite /pubz /plain.txt",
+		"rewrite /pub /secret/file.txt",
+	}
 	switch kind {
+	case "O1":
+		return site(1, "O", ordered...), true
+	case "OB12":
+		return site(1, "O", ordered...) + site(2, "B"), true
 	case "A1":
 		return site(1, "A"), true
 	case "B12":
@@ -272,28 +318,79 @@ func c08Watchdog() time.Duration {
 }
 
 func c08ProbeOnce(port int, patience time.Duration) string {
-	tr := &http.Transport{DisableKeepAlives: true}
+	tr := &http.Transport{DisableKeepAlives: true, DisableCompression: true}
 	defer tr.CloseIdleConnections()
-	cl := &http.Client{Transport: tr, Timeout: patience}
-	resp, err := cl.Get(fmt.Sprintf("http://127.0.0.1:%d/", port))
-	if err != nil {
-		s := err.Error()
-		switch {
-		case strings.Contains(s, "refused"):
-			return "-"
-		case strings.Contains(s, "Timeout") || strings.Contains(s, "deadline"):
-			return "hang"
-		case strings.Contains(s, "reset") || strings.Contains(s, "EOF"):
-			return "e:reset"
+	cl := &http.Client{Transport: tr, Timeout: patience,
+		CheckRedirect: func(*http.Request, []*http.Request) error { return http.ErrUseLastResponse }}
+	get := func(path string, gz bool) (*http.Response, string) {
+		req, _ := http.NewRequest("GET", fmt.Sprintf("http://127.0.0.1:%d%s", port, path), nil)
+		if gz {
+			req.Header.Set("Accept-Encoding", "gzip")
 		}
-		return "e:other"
+		resp, err := cl.Do(req)
+		if err != nil {
+			s := err.Error()
+			switch {
+			case strings.Contains(s, "refused"):
+				return nil, "-"
+			case strings.Contains(s, "Timeout") || strings.Contains(s, "deadline"):
+				return nil, "hang"
+			case strings.Contains(s, "reset") || strings.Contains(s, "EOF"):
+				return nil, "e:reset"
+			}
+			return nil, "e:other"
+		}
+		return resp, ""
 	}
-	defer resp.Body.Close()
+	resp, e := get("/", false)
+	if resp == nil {
+		return e
+	}
 	b, _ := io.ReadAll(io.LimitReader(resp.Body, 64))
+	resp.Body.Close()
 	if resp.StatusCode != 200 {
 		return "e:" + strconv.Itoa(resp.StatusCode)
 	}
-	return strings.TrimSpace(string(b))
+	out := strings.TrimSpace(string(b)) + "/"
+	// the battery: unauthenticated requests whose outcome depends on the order in which the middleware is chained
+	for i, path := range []string{"/secret/file.txt", "/pub", "/api/x", "/secret/moved", "/teapot"} {
+		r, e := get(path, false)
+		if r == nil {
+			return e
+		}
+		io.Copy(io.Discard, io.LimitReader(r.Body, 1<<16))
+		r.Body.Close()
+		if i > 0 {
+			out += "."
+		}
+		out += strconv.Itoa(r.StatusCode)
+	}
+	r, e := get("/pubz", true)
+	if r == nil {
+		return e
+	}
+	io.Copy(io.Discard, io.LimitReader(r.Body, 1<<16))
+	r.Body.Close()
+	if r.Header.Get("Content-Encoding") == "gzip" {
+		out += ".gz"
+	} else {
+		out += ".id"
+	}
+	return out
+}
+
+// 0 iff the process-wide directive list is what it was when the process started
+func c08DirsChanged() int {
+	now := casket.ValidDirectives("http")
+	if len(now) != len(c08.dirs0) {
+		return 1
+	}
+	for i := range now {
+		if now[i] != c08.dirs0[i] {
+			return 1
+		}
+	}
+	return 0
 }
 
 func c08Hooks() int { return len(casket.ListPlugins()["event_hooks"]) }
@@ -302,6 +399,11 @@ func c08Eval(f []string) (string, []string) {
 	casket.Stop()
 	casket.VerifC08ResetInstances()
 	casket.VerifC08PurgeEventHooks()
+	// a fresh process has the directive table as compiled in; should an earlier case have altered the shared list
+	// (it is returned by reference), put it back so that every case starts from the same state
+	if cur := casket.ValidDirectives("http"); len(cur) == len(c08.dirs0) {
+		copy(cur, c08.dirs0)
+	}
 	c08.logbuf.reset()
 	var p [4]int
 	p[1], p[2], p[3] = c08FreePort(), c08FreePort(), c08.p3
@@ -372,7 +474,7 @@ func c08Eval(f []string) (string, []string) {
 			break
 		}
 		ls := c08ListenFds(p)
-		steps = append(steps, fmt.Sprintf("%s;ls=%d.%d;hk=%d;s1=%s;s2=%s", res, ls[1], ls[2], c08Hooks(), c08Probe(p[1]), c08Probe(p[2])))
+		steps = append(steps, fmt.Sprintf("%s;ls=%d.%d;hk=%d;dv=%d;s1=%s;s2=%s", res, ls[1], ls[2], c08Hooks(), c08DirsChanged(), c08Probe(p[1]), c08Probe(p[2])))
 	}
 	casket.Stop()
 	casket.VerifC08ResetInstances()
@@ -388,23 +490,36 @@ func c08Eval(f []string) (string, []string) {
 	return strings.Join(steps, "|"), tl
 }
 
-var c08Kinds = []string{"A1", "B12", "C2", "H1", "HH12", "syn", "unk", "argE", "argL", "tlsM", "imp", "logE", "busy3", "leak13", "leak123"}
+var c08Typos = []string{"proxi", "basicaut", "rewrit", "gzi", "loggg", "tlss", "redri", "zzz"}
+
+var c08Kinds = []string{"O1", "OB12", "A1", "B12", "C2", "H1", "HH12", "syn", "unk", "argE", "argL", "tlsM", "imp", "logE", "busy3", "leak13", "leak123"}
 
 func c08Gen(g *hx.Gen) {
 	var alpha []string
 	for _, k := range c08Kinds {
 		alpha = append(alpha, "L:"+k)
 	}
-	alpha = append(alpha, "V:H1", "V:argL", "V:syn", "X")
+	for _, w := range c08Typos {
+		alpha = append(alpha, "L:ty-"+w)
+	}
+	alpha = append(alpha, "V:H1", "V:argL", "V:syn", "V:ty-proxi", "V:ty-basicaut", "X")
 	maxLen := 2
 	if g.Thorough() {
 		maxLen = 3
 	}
+	// the property's shape: any attempts, then a valid configuration — a plain one and an ORDER-SENSITIVE one, whose
+	// behaviour must be that of a fresh process whatever was attempted before
+	finals := []string{"L:B12", "L:O1"}
 	var rec func(prefix []string, n int)
 	rec = func(prefix []string, n int) {
 		if len(prefix) > 0 {
-			// the property's shape: any attempts, then a valid configuration
-			g.Case(append(append([]string(nil), prefix...), "L:B12")...)
+			if len(prefix) < maxLen || !g.Thorough() {
+				for _, f := range finals {
+					g.Case(append(append([]string(nil), prefix...), f)...)
+				}
+			} else {
+				g.Case(append(append([]string(nil), prefix...), finals[len(prefix[0])%2])...)
+			}
 		}
 		if n == 0 {
 			return
@@ -414,28 +529,33 @@ func c08Gen(g *hx.Gen) {
 		}
 	}
 	rec(nil, maxLen)
-	N := 1500
+	N := 700
 	if g.Thorough() {
 		N = 6000
 	}
+	valid := []string{"A1", "B12", "C2", "H1", "HH12", "O1", "OB12"}
 	for it := 0; it < N; it++ {
 		L := 2 + g.Rng.Intn(6)
 		var ops []string
 		for i := 0; i < L; i++ {
 			r := g.Rng.Intn(20)
 			switch {
-			case r < 15:
+			case r < 11:
 				ops = append(ops, "L:"+hx.Pick(g.Rng, c08Kinds))
+			case r < 15:
+				ops = append(ops, "L:ty-"+hx.Pick(g.Rng, c08Typos))
+			case r < 16:
+				ops = append(ops, "V:ty-"+hx.Pick(g.Rng, c08Typos))
 			case r < 18:
 				ops = append(ops, "V:"+hx.Pick(g.Rng, c08Kinds))
 			default:
 				ops = append(ops, "X")
 			}
 		}
-		ops = append(ops, "L:"+hx.Pick(g.Rng, []string{"A1", "B12", "C2", "H1", "HH12"}))
+		ops = append(ops, "L:"+hx.Pick(g.Rng, valid))
 		g.Case(ops...)
 	}
-	for _, m := range [][]string{{"L:"}, {"L:nope"}, {"Q"}, {"V:"}, {"L:A1", "Y"}} {
+	for _, m := range [][]string{{"L:"}, {"L:nope"}, {"Q"}, {"V:"}, {"L:A1", "Y"}, {"L:ty-"}, {"L:ty-unknownword"}} {
 		g.Case(m...)
 	}
 }
